@@ -129,7 +129,7 @@ func c02Scenario(c *rt.Ctx, fsType string, r *rand.Rand, prog []fsx.Op, exhausti
 				case 3:
 					o = fsx.Op{K: "Remove", P: n}
 				case 4:
-					o = fsx.Op{K: "Chmod", P: n, Perm: []uint32{0o644, 0o600, 0o400, 0o666}[r.IntN(4)]}
+					o = fsx.Op{K: "Chmod", P: n, Perm: []uint32{0o644, 0o600, 0o400, 0o666, 0o4755, 0o2644, 0o1600, 0o6711}[r.IntN(8)]}
 				default:
 					o = fsx.Op{K: "WriteFile", P: n, Data: g.Data(), Perm: 0o644}
 				}
